@@ -304,6 +304,9 @@ func intersectionStable(a0, a1, b0, b1 Point) (Point, bool) {
 // intersectionStableSorted is a helper function for intersectionStable.
 // It expects that the edges (a0,a1) and (b0,b1) have been sorted so that
 // the first edge passed in is longer.
+// minNormalFloat64 is the smallest positive normalized float64 (2**-1022).
+const minNormalFloat64 = 0x1p-1022
+
 func intersectionStableSorted(a0, a1, b0, b1 Point) (Point, bool) {
 	var pt Point
 
@@ -352,7 +355,14 @@ func intersectionStableSorted(a0, a1, b0, b1 Point) (Point, bool) {
 	//         return pt, false
 	// }
 
-	xLen := x.Norm()
+	xLen2 := x.Norm2()
+	if xLen2 < minNormalFloat64 {
+		// If x.Norm2() is less than the smallest normalized float64, xLen loses
+		// precision (or is zero) and the result would not be unit length or
+		// even finite. Leave such cases to the exact method.
+		return pt, false
+	}
+	xLen := math.Sqrt(xLen2)
 	maxError := intersectionError
 	if err > (float64(maxError)-tErr)*xLen {
 		return pt, false
